@@ -133,6 +133,8 @@ class MethodWalker:
             if i + 1 < len(self.params):
                 self.fresh.add(self.params[i + 1])
         self.aliases = set()
+        self.snapshots = {}           # local name -> attributes of self it holds a snapshot of (tuple order)
+        self.reraise = None           # inside an except block: the class a bare `raise` re-raises
         self.copied = world.copied_attrs(root_cls)
 
     def err(self, node, msg):
@@ -256,10 +258,50 @@ class MethodWalker:
             return self.target(t.value, None)
         self.err(t, "assignment target %s" % type(t).__name__)
 
+    def snapshot_of(self, s):
+        """saved = (list(self.A), self.B)  /  saved = list(self.A): remember what the local holds a snapshot of"""
+        if len(s.targets) != 1 or not isinstance(s.targets[0], ast.Name):
+            return None
+        elts = s.value.elts if isinstance(s.value, ast.Tuple) else [s.value]
+        attrs = []
+        for e in elts:
+            if isinstance(e, ast.Call) and isinstance(e.func, ast.Name) and e.func.id in ("list", "copy", "dict", "set") \
+                    and len(e.args) == 1 and isinstance(e.args[0], ast.Attribute) and self.is_self(e.args[0].value):
+                attrs.append((e.args[0].attr, True))
+            elif isinstance(e, ast.Attribute) and self.is_self(e.value):
+                attrs.append((e.attr, False))       # the value itself: a snapshot only of what is rebound, not mutated
+            else:
+                return None
+        if not attrs or not any(copied for _, copied in attrs):
+            return None
+        self.snapshots[s.targets[0].id] = (attrs, isinstance(s.value, ast.Tuple))
+        self.fresh.add(s.targets[0].id)
+        return tuple(("snap", a, copied) for a, copied in attrs)
+
+    def restore_of(self, s):
+        """self.A, self.B = saved   with saved a snapshot local"""
+        if len(s.targets) != 1 or not isinstance(s.value, ast.Name) or s.value.id not in self.snapshots:
+            return None
+        attrs, is_tuple = self.snapshots[s.value.id]
+        t = s.targets[0]
+        targets = t.elts if (is_tuple and isinstance(t, ast.Tuple)) else [t]
+        if len(targets) != len(attrs):
+            return None
+        for x, (a, _) in zip(targets, attrs):
+            if not (isinstance(x, ast.Attribute) and self.is_self(x.value) and x.attr == a):
+                return None
+        return tuple(("restore", a) for a, _ in attrs)
+
     def stmt(self, s):
         if isinstance(s, ast.Expr):
             return self.expr(s.value)
         if isinstance(s, ast.Assign):
+            snap = self.snapshot_of(s)
+            if snap is not None:
+                return seq(self.expr(s.value), lambda: {(snap, "fall")})
+            rest = self.restore_of(s)
+            if rest is not None:
+                return {(rest, "fall")}
             eff = ()
             for t in s.targets:
                 eff += self.target(t, s.value)
@@ -300,6 +342,8 @@ class MethodWalker:
             return seq(self.expr(s.value), lambda: {((), "return")})
         if isinstance(s, ast.Raise):
             exc = s.exc
+            if exc is None and self.reraise is not None:
+                return {((("raise", self.reraise),), "raise")}
             if isinstance(exc, ast.Call) and isinstance(exc.func, ast.Name):
                 name = exc.func.id
             elif isinstance(exc, ast.Name) and exc.id[:1].isupper():
@@ -308,12 +352,47 @@ class MethodWalker:
                 self.err(s, "raise of a non-literal exception")
             return seq(self.expr(exc), lambda: {((("raise", name),), "raise")})
         if isinstance(s, ast.Try):
-            if len(s.body) != 1 or s.orelse or s.finalbody:
-                self.err(s, "try with several statements / else / finally")
+            if s.orelse or s.finalbody:
+                self.err(s, "try with else / finally")
             paths = self.body(s.body)
-            for h in s.handlers:
-                paths = paths | self.body(h.body)      # the exception interrupts the single statement before its write
-            return paths
+
+            def caught_by(h):
+                t = h.type
+                names = [t.id] if isinstance(t, ast.Name) else [e.id for e in t.elts] if isinstance(t, ast.Tuple) else None
+                if names is None:
+                    self.err(s, "except clause without plain class names")
+                return names
+            if len(s.body) == 1 and not any(st == "raise" for _, st in paths):
+                # an exception raised implicitly by the single statement (int(value)): it interrupts it before its write
+                for h in s.handlers:
+                    caught_by(h)
+                    paths = paths | self.body(h.body)
+                return paths
+            # explicit raises inside the body: the handlers must name pypika's own exception classes (nothing implicit)
+            out = set()
+            for eff, st in paths:
+                if st != "raise":
+                    out.add((eff, st))
+                    continue
+                cls = eff[-1][1]
+                handler = None
+                for h in s.handlers:
+                    names = caught_by(h)
+                    if any(not n.endswith("Exception") or n == "Exception" for n in names):
+                        self.err(s, "handler for a class that may be raised implicitly")
+                    if cls in names:
+                        handler = h
+                        break
+                if handler is None:
+                    out.add((eff, st))
+                    continue
+                self.reraise = cls
+                try:
+                    for eff2, st2 in self.body(handler.body):
+                        out.add((eff[:-1] + eff2, st2))
+                finally:
+                    self.reraise = None
+            return out
         if isinstance(s, (ast.Pass, ast.Import, ast.ImportFrom)):
             return {((), "fall")}
         self.err(s, "statement %s" % type(s).__name__)
@@ -353,6 +432,10 @@ def rows_to_coq(rows):
             return "EInPlace %s %s" % (S(e[1]), B(e[2]))
         if e[0] == "writearg":
             return "EWriteArg %s" % S(e[1])
+        if e[0] == "snap":
+            return "ESnap %s %s" % (S(e[1]), B(e[2]))
+        if e[0] == "restore":
+            return "ERestore %s" % S(e[1])
         return "ERaise %s" % S(e[1])
     lines = []
     for name, mut, paths in rows:
